@@ -47,7 +47,11 @@ DocSeeds == { << <<"h", "i", "j", "...">>, <<"h", "j", "...">>, <<"h", "i", "...
               << <<"h", "k", "i", "j">>, <<"h", "k", "j">>, <<"k", "h", "i">> >>,
               << <<"h", "k", "i", "j">>, <<"k", "h", "j">>, <<"h", "k", "i">> >>,
               << <<"k", "...", "i", "j">>, <<"k", "...", "j">>, <<"...", "k", "i">> >>,
-              << <<"k", "...", "i", "j">>, <<"k", "...", "j">>, <<"k", "...", "i">> >> }
+              << <<"k", "...", "i", "j">>, <<"k", "...", "j">>, <<"k", "...", "i">> >>,
+              \* the two cases of one letter are different axes: an upper-case batch letter next to the lower-case
+              \* contracted / free letters (of the same size in both shape modes)
+              << <<"J", "i", "j">>, <<"J", "j">>, <<"J", "i">> >>,
+              << <<"i", "J", "j">>, <<"J", "j">>, <<"i", "J">> >> }
 
 Init == /\ phase = "b" /\ b = <<>> /\ x = <<>> /\ o = <<>> /\ form = "" /\ alg = AlgInit(<<>>)
         /\ par = NoPar /\ jd = NoJd
@@ -107,8 +111,8 @@ AlgAdvance == /\ phase = "alg" /\ alg.pc # "end"
 
 -----------------------------------------------------------------------------
 (* shapes *)
-SizesOf(mode) == IF mode = "distinct" THEN [i |-> 2, j |-> 3, k |-> 4, h |-> 5]
-                 ELSE [i |-> 2, j |-> 2, k |-> 2, h |-> 2]
+SizesOf(mode) == IF mode = "distinct" THEN [i |-> 2, j |-> 3, k |-> 4, h |-> 5, J |-> 3]
+                 ELSE [i |-> 2, j |-> 2, k |-> 2, h |-> 2, J |-> 2]
 ShapeOf(toks, mode, er) ==
   ConcatAll([p \in 1..Len(toks) |-> IF toks[p] = Ellipsis THEN [q \in 1..er |-> 2]
                                     ELSE <<SizesOf(mode)[toks[p]]>>])
@@ -178,9 +182,9 @@ Parsing == (Built /\ alg.pc \notin {"parse"}) =>
 
 \* assertions between the statements
 AfterSum == (Built /\ alg.pc \in {"transpose", "swap", "check"}) =>
-               /\ alg.s \in Letters /\ Count(b, alg.s) >= 1 /\ Count(x, alg.s) >= 1 /\ Count(o, alg.s) = 0
+               /\ alg.s \in AllLetters /\ Count(b, alg.s) >= 1 /\ Count(x, alg.s) >= 1 /\ Count(o, alg.s) = 0
 AfterTranspose == (Built /\ alg.pc \in {"swap", "check"}) =>
-               /\ alg.t \in Letters /\ alg.t # alg.s
+               /\ alg.t \in AllLetters /\ alg.t # alg.s
                /\ Count(b, alg.t) >= 1 /\ Count(o, alg.t) >= 1 /\ Count(x, alg.t) = 0
 \* the swap exchanges the two letters at every position of the blocks subscripts and nothing else
 AfterSwap == (Built /\ (alg.pc = "check" \/ (alg.pc = "end" /\ alg.ok))) =>
